@@ -75,6 +75,10 @@ def recovery(rep, r, n):
         if k % 3 == 1 and gal['eps'] < 0.6:                # area integration (used from sma ~ 30 outwards) needs a few pixels across the minor axis
             kw['integrmode'] = r.choice(['mean', 'median'])
             kw['maxsma'] = 52.0
+        if k % 3 == 2:
+            # nearest-neighbour sampling down to the centre (at small radii both gradient samples can hit the same pixels: F61)
+            kw['integrmode'] = 'nearest_neighbor'
+            kw['minsma'] = r.choice([0.0, 1.0])
         rp = {'galaxy': gal, 'kwargs': kw}
         try:
             iso, init = fit(gal, img, kw)
